@@ -22,5 +22,7 @@ ev = rd(src + "/eval.log")
 meta["checks_run"] = "tools/eval_seeded.py %s (quick tier, scratch copies of /repo and /verif)" % ID
 meta["checks_result"] = ev[:1500]
 meta["detected"] = "VIOLATION" in ev
+if len(sys.argv) > 3:
+    meta["strengthened_after_miss"] = sys.argv[3]
 json.dump(meta, open(dst + "/meta.json", "w"), indent=1)
 print(dst, "detected" if meta["detected"] else "NOT DETECTED")
